@@ -16,7 +16,8 @@ INVS = {
     "C07": ["C07"],
     "C08": ["C08all", "C08same"],
     "C09": ["C09"],
-    "C14": ["C14"],
+    "C14": ["C14", "C06"],
+    "C17": ["C05fixrepairs", "C05trim"],
 }
 
 
@@ -28,11 +29,10 @@ def cfg_with_invariants(cfg_name: str, invs) -> str:
     return name, "\n".join(out) + "\n"
 
 
-def run_mc(chk: Check, cfg: str, invs, overrides, label, timeout=1500):
+def run_mc(chk: Check, cfg: str, invs, overrides, label, timeout=1500, workers=8):
     name, text = cfg_with_invariants(cfg, invs)
     text = tlc.derive_cfg(text, overrides)
-    tmp_cfg = tlc.SPEC_DIR / cfg      # read-only use; the derived text is written into the scratch dir
-    res = tlc.run_tlc("MC_Core", cfg, overrides=None, extra_files={"run.cfg": text}, timeout=timeout)
+    res = tlc.run_tlc("MC_Core", cfg, overrides=None, extra_files={"run.cfg": text}, timeout=timeout, workers=workers)
     return res
 
 
@@ -80,40 +80,55 @@ def replay_runs(chk: Check, runs, driver=None):
         raise MachineryError("%d replay jobs crashed in the harness" % errors)
 
 
+MC_STRIDE = {"A": (8, 1), "B": (1024, 32)}        # (quick, thorough) stride of the model-checking runs
+EMIT_STRIDE_B = (1024, 64)
+
+
 def core_check(pid: str, *, f_filter=None, cfgs=("A",), quick_stride=8, quick_keep=20,
                thorough_stride=1, thorough_keep=8, level="model_checking", extra=None,
-               sessions_quick=0, sessions_thorough=0):
+               sessions_quick=0, sessions_thorough=0, run_filter=None, annotate=None, keep_b=(6, 2)):
     chk = Check(pid, level)
     if chk.replay:
         return replay_file(chk)
-    stride_mc = 4 if chk.quick else 1
-    stride_emit = quick_stride if chk.quick else thorough_stride
-    keep = quick_keep if chk.quick else thorough_keep
-    futs = {}
-    with cf.ThreadPoolExecutor(4) as ex:
-        for c in cfgs:
-            ov = {"Stride": stride_mc, "Offset": chk.seed % stride_mc}
-            futs[("mc", c)] = ex.submit(run_mc, chk, "Core_%s_mc.cfg" % c, INVS[pid], ov, "mc " + c)
-            ov = {"Stride": stride_emit, "Offset": chk.seed % stride_emit}
-            futs[("emit", c)] = ex.submit(tlc.run_tlc, "MC_Core", "Core_%s_emit.cfg" % c, overrides=ov, timeout=1500)
-    for (kind, c), f in futs.items():
-        res = f.result()
-        try:
-            chk.add_tlc(res, "%s Core_%s (%s)" % (kind, c, ",".join(INVS[pid]) if kind == "mc" else "Emit"))
-            if not res.ok:
-                chk.spec_violation(res, "%s Core_%s" % (kind, c))
-                continue
-            if kind == "emit":
-                runs = core_replay.load_runs(res.out_dir, seed=chk.seed, keep_every=keep, f_filter=f_filter)
-                if not runs:
-                    raise MachineryError("no cases emitted by TLC")
-                replay_runs(chk, runs)
-                ns = sessions_quick if chk.quick else sessions_thorough
-                if ns:
-                    sub = [dict(r, id=r["id"] + "@session") for r in runs[:: max(1, len(runs) // ns)][:ns]]
-                    replay_runs(chk, sub, driver="session")
-        finally:
-            tlc.cleanup(res)
+    keeps = {}
+    for c in cfgs:
+        stride_mc = MC_STRIDE[c][0 if chk.quick else 1]
+        if c == "A":
+            stride_emit = quick_stride if chk.quick else thorough_stride
+            keeps[c] = quick_keep if chk.quick else thorough_keep
+        else:
+            stride_emit = EMIT_STRIDE_B[0 if chk.quick else 1]
+            keeps[c] = keep_b[0 if chk.quick else 1]
+        # the model-checking run and the emission run of one configuration share the machine
+        with cf.ThreadPoolExecutor(2) as ex:
+            f_mc = ex.submit(run_mc, chk, "Core_%s_mc.cfg" % c, INVS[pid],
+                             {"Stride": stride_mc, "Offset": chk.seed % stride_mc}, "mc " + c)
+            f_em = ex.submit(tlc.run_tlc, "MC_Core", "Core_%s_emit.cfg" % c, timeout=1500, workers=8,
+                             overrides={"Stride": stride_emit, "Offset": chk.seed % stride_emit})
+            futs = {("mc", c): f_mc, ("emit", c): f_em}
+        for (kind, c2), f in futs.items():
+            res = f.result()
+            try:
+                chk.add_tlc(res, "%s Core_%s (%s)" % (kind, c2, ",".join(INVS[pid]) if kind == "mc" else "Emit"))
+                if not res.ok:
+                    chk.spec_violation(res, "%s Core_%s" % (kind, c2))
+                    continue
+                if kind == "emit":
+                    runs = core_replay.load_runs(res.out_dir, seed=chk.seed, keep_every=keeps[c2], f_filter=f_filter)
+                    if run_filter:
+                        runs = [r for r in runs if run_filter(r)]
+                    if annotate:
+                        for r in runs:
+                            annotate(r)
+                    if not runs:
+                        raise MachineryError("no cases emitted by TLC")
+                    replay_runs(chk, runs)
+                    ns = sessions_quick if chk.quick else sessions_thorough
+                    if ns and c2 == cfgs[0]:
+                        sub = [dict(r, id=r["id"] + "@session") for r in runs[:: max(1, len(runs) // ns)][:ns]]
+                        replay_runs(chk, sub, driver="session")
+            finally:
+                tlc.cleanup(res)
     if extra:
         extra(chk)
     return chk
@@ -125,12 +140,12 @@ def chain_check(pid: str, mode: str):
     chk = Check(pid, "model_checking")
     if chk.replay:
         return replay_file(chk)
-    stride_mc = 4 if chk.quick else 1
+    stride_mc = 8 if chk.quick else 1
     stride_emit = (16 if mode == "chain8" else 8) if chk.quick else 2
     keep = (12 if mode == "chain8" else 4) if chk.quick else (4 if mode == "chain8" else 1)
     with cf.ThreadPoolExecutor(2) as ex:
         f_mc = ex.submit(run_mc, chk, "Core_A_mc.cfg", INVS[pid], {"Stride": stride_mc, "Offset": chk.seed % stride_mc}, "mc")
-        f_em = ex.submit(tlc.run_tlc, "MC_Core", "Core_A_emit.cfg", timeout=1500,
+        f_em = ex.submit(tlc.run_tlc, "MC_Core", "Core_A_emit.cfg", timeout=1500, workers=8,
                          overrides={"Stride": stride_emit, "Offset": chk.seed % stride_emit, "Mode": mode})
     res = f_mc.result()
     chk.add_tlc(res, "mc Core_A (%s)" % ",".join(INVS[pid]))
